@@ -138,3 +138,22 @@ package introspection
 //@ func introspectionVisitor.deprecationReason
 //@   requires i != nil && i.definition != nil
 //@   modifies *
+
+// C17, nothing mis-typed: the kind of a named type reference comes from a node that DEFINES a type of that name; the
+// index also holds directive definitions and type extensions under their names (a directive @tag next to a type tag
+// is legal), and those say nothing about the kind
+//@ func typeKindOfNode
+//@   ensures {only.the.six.type.definitions.have.a.kind} result1 <==> (kind == ast.NodeKindScalarTypeDefinition || kind == ast.NodeKindObjectTypeDefinition || kind == ast.NodeKindEnumTypeDefinition || kind == ast.NodeKindInterfaceTypeDefinition || kind == ast.NodeKindUnionTypeDefinition || kind == ast.NodeKindInputObjectTypeDefinition)
+//@   ensures {each.definition.has.its.own.kind} (kind == ast.NodeKindScalarTypeDefinition ==> result0 == SCALAR) && (kind == ast.NodeKindObjectTypeDefinition ==> result0 == OBJECT) && (kind == ast.NodeKindEnumTypeDefinition ==> result0 == ENUM) && (kind == ast.NodeKindInterfaceTypeDefinition ==> result0 == INTERFACE) && (kind == ast.NodeKindUnionTypeDefinition ==> result0 == UNION) && (kind == ast.NodeKindInputObjectTypeDefinition ==> result0 == INPUTOBJECT)
+//@   pure
+//@ func introspectionVisitor.TypeRef
+//@   requires i != nil && i.definition != nil
+//@   ghost var g_ok bool = false
+//@   ghost var g_kind int = 0 - 1
+//@   at call typeKindOfNode: ghost g_ok = result1
+//@   at call typeKindOfNode: ghost g_kind = result0
+//@   ensures {the.kind.of.a.named.reference.comes.from.a.node.that.defines.a.type} i.definition.Types[typeRef].TypeKind == ast.TypeKindNamed && result.Name != nil ==> g_ok && result.Kind == g_kind
+//@   modifies *
+//@   safety no-bounds
+//@   loop 0:
+//@     invariant true
